@@ -1,5 +1,105 @@
-(* C04 -- payload filters agree with plain regular-expression matching (theorems follow) *)
-From Coq Require Import List NArith.
-Require Import Pk.RegexProg.
-Example c04_placeholder : MAXU = 18446744073709551615%N.
-Proof. reflexivity. Qed.
+(* C04 -- payload filters agree with plain regular-expression matching.
+
+   Model: theories/RegexProg.v (compiled programs), Regex.v (leftmost-first matcher of binaryregexp on programs, captures,
+   empty-width assertions), DataFilter.v (search_data.go without sub-query variants: progressVariant.find with its
+   shortcuts as fixed by fixes/C04-1, sequence progress with per-direction offsets and the chunk-boundary rule, the
+   re-check loop over shared expressions, success/fail accounting over data sources, negation) and the specification
+   (plain scan in conversation order: seq_spec, cond_holds_spec, conj_spec, stream_spec).
+   F is the recursion depth of the matcher, one value for a whole evaluation; every statement holds for every F. *)
+From Coq Require Import List NArith Bool.
+Import ListNotations.
+Require Import Pk.RegexProg Pk.RegexProgProofs Pk.Regex Pk.RegexProofs Pk.DataFilter Pk.DataFilterProofs.
+
+(* ---- A. the shortcuts of progressVariant.find do not change the scan.
+   facts_sound r: every accepted word starts with the prefix, ends with the suffix and has a length within [min,max].
+   find_agrees: the offset only moves forward inside the data; a reported match is the match the plain scan finds from the
+   old offset (same captures, indices shifted by the move of the offset); no match reported = the plain scan finds none
+   from the old offset and none from the new one.
+   Not covered (hence _partial): the fixed-length window loop (min = max, no prefix, non-empty suffix). *)
+Theorem c04_find_shortcut_plain_partial : forall F guard r data off res off',
+  assertion_free (r_prog r) = true -> facts_sound r -> off <= length data ->
+  (N.eqb (f_min (r_facts r)) (f_max (r_facts r)) && match f_prefix (r_facts r) with [] => true | _ => false end
+     && match f_suffix (r_facts r) with [] => false | _ => true end = false) ->
+  find F guard r data off = (res, off') -> find_agrees F r data off res off'.
+Proof. exact find_shortcut_plain_partial. Qed.
+
+(* the facts finalize() computes (LiteralPrefix of a program that is not one-pass, AcceptedLength, ConstantSuffix; for a
+   complete literal the literal itself) are sound: this is where C18 is used *)
+Theorem c04_facts_sound : forall r P compl,
+  wf (r_prog r) = true -> prog_prefix (r_prog r) = (P, compl) -> f_prefix (r_facts r) = P ->
+  (if compl
+   then f_suffix (r_facts r) = P /\ f_min (r_facts r) = len P /\ f_max (r_facts r) = len P
+   else accepted_length_cached (r_prog r) = Some (f_min (r_facts r), f_max (r_facts r)) /\
+        constant_suffix (r_prog r) = Some (f_suffix (r_facts r))) ->
+  facts_sound r.
+Proof. exact facts_sound_model. Qed.
+
+(* expressions with empty-width assertions: scanned as they are, offset untouched (the fix) *)
+Theorem c04_find_guard_plain : forall F r data off, context_sensitive r = true ->
+  find F true r data off = (plain F r (skipn off data), off).
+Proof. exact find_guard_plain. Qed.
+
+(* without the guard the shortcuts change the answer: foo3$ on "foo3 bar" (replayed on the Go code before the fix) *)
+Theorem c04_find_unguarded_refuted :
+  plain 100 rx_foo3_dollar payload_foo3_bar = None /\
+  fst (find 100 false rx_foo3_dollar payload_foo3_bar 0) = Some [Some 0; Some 4] /\
+  fst (find 100 true rx_foo3_dollar payload_foo3_bar 0) = None.
+Proof. exact find_unguarded_refuted. Qed.
+
+(* ---- the matcher: a reported match is a path of the program (link to C18), and for programs without assertions
+   the search neither sees what lies before its start nor what lies behind the last possible match end *)
+Theorem c04_search_sound : forall F p ncap t c, search F p ncap t = Some c ->
+  exists j e, j <= e /\ e <= length t /\ accepts p (slice t j e).
+Proof. exact search_sound. Qed.
+
+Theorem c04_search_skip : forall F p ncap pre t, assertion_free p = true ->
+  (forall j, j < length pre -> match_at F p ncap (pre ++ t) j = None) ->
+  search F p ncap (pre ++ t) = option_map (shift (length pre)) (search F p ncap t).
+Proof. exact search_skip. Qed.
+
+Theorem c04_search_truncate : forall F p ncap t cut, assertion_free p = true -> cut <= length t ->
+  (forall i e, i <= e -> e <= length t -> accepts p (slice t i e) -> e <= cut) ->
+  search F p ncap (firstn cut t) = search F p ncap t.
+Proof. exact search_truncate. Qed.
+
+Theorem c04_literal_prefix_sound : forall p P compl w, wf p = true -> prog_prefix p = (P, compl) -> accepts p w ->
+  (exists rest, w = P ++ rest) /\ (compl = true -> w = P).
+Proof. exact prog_prefix_sound. Qed.
+
+(* ---- D. data sources and negation: if on every evaluated source the loop leaves every condition in the state the
+   plain scan prescribes, a non-inverted condition holds iff it holds in some evaluated representation, an inverted one
+   iff it holds in all, and without any representation only inverted conditions hold (conj_spec). *)
+Theorem c04_sources_and_negation : forall F guard tbl cn cs st,
+  (forall s ci c, In s (sources_of cn st) -> nth_error cs ci = Some c ->
+     match nth_error (source_eval F guard tbl cs s) ci with
+     | Some p => cond_success c p = cond_holds_spec F tbl c s
+     | None => False
+     end) ->
+  conj_selected F guard tbl cn cs st = conj_spec F tbl cn cs st.
+Proof. exact conj_accounting. Qed.
+
+(* ---- non-vacuity *)
+Definition rx_ab_c : rx := mkRx          (* ab+c : prefix "ab", no suffix (a loop in front empties it), min 3 *)
+  (mkProg [ mkInst IFail 0 0 [] []; mkInst IRune1 2 0 [97%N] []; mkInst IRune1 3 0 [98%N] []; mkInst IAlt 2 4 [] [];
+            mkInst IRune1 5 0 [99%N] []; mkInst IMatch 0 0 [] [] ] 1)
+  2 (mkFacts [97; 98]%N [] 3%N MAXU).
+Example c04_ex_facts : wf (r_prog rx_ab_c) = true /\ assertion_free (r_prog rx_ab_c) = true /\
+  prog_prefix (r_prog rx_ab_c) = ([97; 98]%N, false) /\
+  accepted_length_cached (r_prog rx_ab_c) = Some (3%N, MAXU) /\ constant_suffix (r_prog rx_ab_c) = Some [].
+Proof. vm_compute. auto 10. Qed.
+Example c04_ex_find :
+  find 200 true rx_ab_c [120; 97; 98; 120; 97; 98; 98; 99; 120; 99]%N 0 = (Some [Some 3; Some 7], 1) /\
+  plain 200 rx_ab_c [120; 97; 98; 120; 97; 98; 98; 99; 120; 99]%N = Some [Some 4; Some 8].
+Proof. vm_compute. auto. Qed.
+Definition rx_a_c : rx := mkRx           (* a.c : prefix "a", suffix "c", length 3 *)
+  (mkProg [ mkInst IFail 0 0 [] []; mkInst IRune1 2 0 [97%N] []; mkInst IRuneAnyNotNL 3 0 [0; 9; 11; 1114111]%N [];
+            mkInst IRune1 4 0 [99%N] []; mkInst IMatch 0 0 [] [] ] 1)
+  2 (mkFacts [97]%N [99]%N 3%N 3%N).
+Example c04_ex_facts2 : wf (r_prog rx_a_c) = true /\ assertion_free (r_prog rx_a_c) = true /\
+  prog_prefix (r_prog rx_a_c) = ([97]%N, false) /\
+  accepted_length_cached (r_prog rx_a_c) = Some (3%N, 3%N) /\ constant_suffix (r_prog rx_a_c) = Some [99%N].
+Proof. vm_compute. auto 10. Qed.
+Example c04_ex_find2 :
+  find 200 true rx_a_c [120; 97; 120; 99; 99; 120]%N 0 = (Some [Some 0; Some 3], 1) /\
+  plain 200 rx_a_c [120; 97; 120; 99; 99; 120]%N = Some [Some 1; Some 4].
+Proof. vm_compute. auto. Qed.
